@@ -17,13 +17,15 @@ def bin_cmd(b):
 CPUS = sorted(os.sched_getaffinity(0))
 
 
+FIRST_USE_SEED = 424242   # seed of the first-use run of a harness process (sim/hutil.h)
+REPLAY_TIMEOUT = [RUN_TIMEOUT]   # wall-clock limit of one replay (set from spec['idle_limit'])
 IS_KNOWN = [lambda rec: False]   # set by run_sim_check: does a violating record match an entry of known_findings.json?
 
 
 class Worker:
     """runs one arithmetic progression of seeds, restarting the harness process after a fatal run"""
 
-    def __init__(self, binary, variant, tier_num, first, count, stride, env=None, cpu=None, chunk=None, extra=None):
+    def __init__(self, binary, variant, tier_num, first, count, stride, env=None, cpu=None, chunk=None, extra=None, idle=None):
         self.cpu = cpu
         self.chunk = chunk or CHUNK
         self.extra = extra or []
@@ -31,6 +33,7 @@ class Worker:
         self.first, self.count, self.stride = first, count, stride
         self.env = env
         self.records, self.crashes = [], []
+        self.idle = idle or RUN_TIMEOUT
 
     def go(self, deadline=None):
         nxt, left = self.first, self.count
@@ -42,7 +45,7 @@ class Worker:
             cmd = bin_cmd(self.binary) + ["--seeds", str(nxt), str(min(left, self.chunk)), str(self.stride), "--tier", str(self.tier_num), "--variant", self.variant] + self.extra
             if self.cpu is not None:   # all threads of one simulated process on one core: baton passing stays cheap
                 cmd = ["taskset", "-c", str(self.cpu)] + cmd
-            p = run_watched(cmd, self.env, RUN_TIMEOUT * (3 if self.tier_num else 1))   # thorough plans are up to 100 times larger
+            p = run_watched(cmd, self.env, self.idle * (3 if self.tier_num else 1))   # thorough plans are up to 100 times larger
             done = 0
             last_seed = None
             for line in p.stdout.splitlines():
@@ -53,6 +56,14 @@ class Worker:
                 except ValueError:
                     continue
                 rec["variant"] = self.variant
+                if rec.get("seed") == FIRST_USE_SEED:
+                    # the unreported first-use run of the harness process ended in a violation: every process would die there again, so this
+                    # worker stops; the record (it carries its plan and decisions) goes through minimisation and the gates like any other
+                    if rec["cls"] == "memory-error":
+                        rec["detail"] = sanitizer_summary(p.stderr)
+                    self.records.append(rec)
+                    ABORT[0] += 1
+                    return self
                 if rec["cls"] == "memory-error":
                     rec["detail"] = sanitizer_summary(p.stderr)
                 self.records.append(rec)
@@ -124,7 +135,7 @@ def replay_once(binary, rec, plan, decisions, tmp_path, env=None, timeout=None):
         obj["decisions"] = decisions
     json.dump(obj, open(tmp_path, "w"))
     try:
-        p = subprocess.run(bin_cmd(binary) + ["--replay", tmp_path], stdout=subprocess.PIPE, stderr=subprocess.PIPE, text=True, errors="replace", env=env, timeout=timeout or RUN_TIMEOUT)
+        p = subprocess.run(bin_cmd(binary) + ["--replay", tmp_path], stdout=subprocess.PIPE, stderr=subprocess.PIPE, text=True, errors="replace", env=env, timeout=timeout or REPLAY_TIMEOUT[0])
     except subprocess.TimeoutExpired:
         return "hang", {"detail": "WATCHDOG: no result within the wall-clock limit (busy loop outside any scheduling point)"}
     out = None
@@ -288,6 +299,7 @@ def run_sim_check(spec, args):
         except Exception:
             return False
     IS_KNOWN[0] = is_known
+    REPLAY_TIMEOUT[0] = spec.get("idle_limit") or RUN_TIMEOUT
 
     if args.replay:
         rep = json.load(open(args.replay))
@@ -330,7 +342,7 @@ def run_sim_check(spec, args):
                 cnt = (nruns - w + nw - 1) // nw
                 if cnt > 0:
                     extra = ["--workdir", os.path.join(spec["workdir"], "w%d" % len(workers))] if spec.get("workdir") else None
-                    workers.append(Worker(binaries[v], v, tier_num, base + rounds * total + off + w, cnt, nw, env, cpu=CPUS[len(workers) % len(CPUS)], chunk=spec.get("chunk"), extra=extra))
+                    workers.append(Worker(binaries[v], v, tier_num, base + rounds * total + off + w, cnt, nw, env, cpu=CPUS[len(workers) % len(CPUS)], chunk=spec.get("chunk"), extra=extra, idle=spec.get("idle_limit")))
             off += 0   # every variant explores the same seeds: differences between variants are then attributable to the variant
         with concurrent.futures.ThreadPoolExecutor(max_workers=len(workers)) as ex:
             list(ex.map(lambda w: w.go(deadline), workers))
@@ -349,7 +361,7 @@ def run_sim_check(spec, args):
     def resample(keys):
         out = []
         for (v, s) in keys:
-            w = Worker(binaries[v], v, tier_num, s, 1, 1, env, chunk=spec.get("chunk")).go()
+            w = Worker(binaries[v], v, tier_num, s, 1, 1, env, chunk=spec.get("chunk"), idle=spec.get("idle_limit")).go()
             if w.records:
                 out.append(((v, s), w.records[0]))
         return out
@@ -421,7 +433,7 @@ def run_sim_check(spec, args):
         if cls == "hang" and "plan" in rec:
             # the watchdog is a wall-clock device (no output for RUN_TIMEOUT seconds): on a loaded machine a long run can trip it.  The run is
             # replayed alone with six times the limit; when it completes normally it was no hang, and it is only counted.
-            c0, o0 = replay_once(binaries[rec["variant"]], rec, rec["plan"], rec.get("decisions"), path + ".slow", env, timeout=6 * RUN_TIMEOUT)
+            c0, o0 = replay_once(binaries[rec["variant"]], rec, rec["plan"], rec.get("decisions"), path + ".slow", env, timeout=6 * REPLAY_TIMEOUT[0])
             if os.path.exists(path + ".slow"):
                 os.remove(path + ".slow")
             if c0 == "ok":
